@@ -45,6 +45,7 @@ pub fn lookup(scen: &str) -> Option<Scenario> {
         "rt" => scen_rt::run,
         "c13" => scen_c13::run,
         "c10" => scen_meta::run_c10,
+        "c10big" => scen_meta::run_c10_big,
         "c11" => scen_meta::run_c11,
         "c11flips" => scen_meta::run_c11_flips,
         "dmg" => scen_dmg::run,
